@@ -71,6 +71,8 @@ func (i *interpreter) toNative(fr *frame, t types.Type, v value, depth int) inte
 		return i.toNative(fr, x.t, x.v, depth)
 	case sym:
 		return x.String()
+	case bstr:
+		return x.readable()
 	case nil:
 		return nil
 	case bool, string, int, int8, int16, int32, int64, uint, uint8, uint16, uint32, uint64, uintptr, float32, float64:
@@ -337,6 +339,9 @@ func (i *interpreter) writerAppend(fr *frame, w iface, s string) value {
 
 func init() {
 	natives["fmt.Sprintf"] = func(fr *frame, a []value) value {
+		if fr.i.runtimeFmt() {
+			return fr.i.sprintfRuntime(fr, a[0].(string), a[1].([]value))
+		}
 		return fr.i.sprintf(fr, a[0].(string), a[1].([]value))
 	}
 	natives["fmt.Errorf"] = func(fr *frame, a []value) value {
